@@ -26,8 +26,8 @@ NAMES = ["DEFINED", "STARTED", "LOCKED_IN", "ACTIVE", "FAILED"]
 
 
 def runs(tier, seed):
-    n = 3000 if tier == "quick" else 300000
-    return [Run("versionbits", cases=n, timeout=3000)]
+    n = 3000 if tier == "quick" else 60000  # DESIGN planned 300k; scaled to ~10 min on 16 idle cores
+    return [Run("versionbits", cases=n, timeout=7000)]
 
 
 def check(rec, st):
